@@ -122,7 +122,8 @@ def main(pid, tier="quick", seed=0, jobs=None, only=None, write_baseline=False):
     for ob in sorted(failed, key=lambda o: o["id"]):
         hit = None
         for k in known:
-            if k.get("status") == "known" and re.search(k["obligation_pattern"], ob["id"]):
+            if k.get("status") == "known" and re.search(k["obligation_pattern"], ob["id"]) and \
+                    (not k.get("detail_pattern") or re.search(k["detail_pattern"], str(ob.get("detail") or ""))):
                 hit = k
                 break
         if hit is not None:
@@ -213,8 +214,9 @@ def main(pid, tier="quick", seed=0, jobs=None, only=None, write_baseline=False):
         "seed": int(seed),
         "level": meta.get("level", "proof"),
         "coverage": {
-            "obligations": n_ob,
+            "obligations": n_ob - len(known_hits),
             "discharged": len(proved),
+            "obligations_failing_as_listed_known_findings": len(known_hits),
             "checker_cmd": f"./check {pid} --tier {tier}",
             "trusted_base": meta.get("trusted_base", []),
             "functions_under_contract": meta.get("functions_under_contract", []),
@@ -257,7 +259,7 @@ def main(pid, tier="quick", seed=0, jobs=None, only=None, write_baseline=False):
         if os.path.exists(p):
             with open(p) as f:
                 data = json.load(f)
-        data.setdefault(pid, {})[tier] = sorted(o for o in obligations if "/lib-pre/" not in o and "/rnd:" not in o)
+        data.setdefault(pid, {})[tier] = sorted(o for o, r in obligations.items() if r["status"] == "proved" and "/lib-pre/" not in o and "/rnd:" not in o)
         with open(p, "w") as f:
             json.dump(data, f, indent=0, sort_keys=True)
 
